@@ -140,6 +140,8 @@ type ApplyOpts struct {
 	BeforeCommit func() string // invariant evaluated right before Commit; non-empty = violation
 	Checkpoint *patcher.Checkpoint
 	NoCommit   bool
+	Consumer   *state.Consumer
+	OnPool     func(p *Pool) // configure the simulated target pool (recording, OnRead hooks)
 }
 
 type ApplyResult struct {
@@ -167,13 +169,21 @@ func apply(patch []byte, oldDir, outDir, stageDir string, o ApplyOpts) *ApplyRes
 	res := &ApplyResult{Stage: "new"}
 	res.Panic = Recover(func() {
 		src, _ := NewSource(patch, o.PatchSlice, o.Yield)
-		p, err := patcher.New(src, Quiet())
+		cons := o.Consumer
+		if cons == nil {
+			cons = Quiet()
+		}
+		p, err := patcher.New(src, cons)
 		if err != nil {
 			res.Err = err
 			return
 		}
 		res.Source, res.Target = p.GetSourceContainer(), p.GetTargetContainer()
-		var targetPool lake.Pool = &Pool{Inner: fspool.New(p.GetTargetContainer(), oldDir), Name: "tgtpool", Slice: o.PoolSlice, Yield: o.Yield}
+		sp := &Pool{Inner: fspool.New(p.GetTargetContainer(), oldDir), Name: "tgtpool", Slice: o.PoolSlice, Yield: o.Yield}
+		if o.OnPool != nil {
+			o.OnPool(sp)
+		}
+		var targetPool lake.Pool = sp
 		if o.WrapPool != nil {
 			targetPool = o.WrapPool(targetPool, p.GetTargetContainer())
 		}
